@@ -60,10 +60,11 @@ structure Ext (s s' : Srv) : Prop where
   loop : ∀ c, (s'.conn c).loop = (s.conn c).loop
   name : ∀ c, (s'.conn c).name = (s.conn c).name
   drain : s'.drain = s.drain
+  drainRepeats : s'.drainRepeats = s.drainRepeats
   trace : ∃ evs, s'.trace = s.trace ++ evs ∧ ∀ e ∈ evs, AffOK s e
 
 theorem Ext.refl (s : Srv) : Ext s s :=
-  ⟨rfl, rfl, rfl, rfl, rfl, rfl, rfl, List.Sublist.refl _, fun _ => rfl, fun _ => rfl, rfl, [], by simp, by simp⟩
+  ⟨rfl, rfl, rfl, rfl, rfl, rfl, rfl, List.Sublist.refl _, fun _ => rfl, fun _ => rfl, rfl, rfl, [], by simp, by simp⟩
 
 theorem affOK_loop {s s' : Srv} (h : ∀ c, (s'.conn c).loop = (s.conn c).loop) (e : Ev) : AffOK s' e ↔ AffOK s e := by
   unfold AffOK; rw [h]
@@ -73,7 +74,7 @@ theorem Ext.trans {s s' s'' : Srv} (h1 : Ext s s') (h2 : Ext s' s'') : Ext s s''
   obtain ⟨e2, ht2, ha2⟩ := h2.trace
   refine ⟨h2.n.trans h1.n, h2.L.trans h1.L, h2.nameOf.trans h1.nameOf, h2.pool.trans h1.pool, h2.nextId.trans h1.nextId,
     h2.alive.trans h1.alive, h2.exited.trans h1.exited, h2.map.trans h1.map, fun c => (h2.loop c).trans (h1.loop c),
-    fun c => (h2.name c).trans (h1.name c), h2.drain.trans h1.drain, e1 ++ e2, by rw [ht2, ht1, List.append_assoc], ?_⟩
+    fun c => (h2.name c).trans (h1.name c), h2.drain.trans h1.drain, h2.drainRepeats.trans h1.drainRepeats, e1 ++ e2, by rw [ht2, ht1, List.append_assoc], ?_⟩
   intro e he
   rcases List.mem_append.mp he with h | h
   · exact ha1 e h
@@ -81,21 +82,21 @@ theorem Ext.trans {s s' s'' : Srv} (h1 : Ext s s') (h2 : Ext s' s'') : Ext s s''
 
 theorem ext_setConn (s : Srv) (c : Nat) (C : Conn) (hl : C.loop = (s.conn c).loop) (hn : C.name = (s.conn c).name) :
     Ext s (s.setConn c C) := by
-  refine ⟨rfl, rfl, rfl, rfl, rfl, rfl, rfl, List.Sublist.refl _, fun i => ?_, fun i => ?_, rfl, [], by simp, by simp⟩
+  refine ⟨rfl, rfl, rfl, rfl, rfl, rfl, rfl, List.Sublist.refl _, fun i => ?_, fun i => ?_, rfl, rfl, [], by simp, by simp⟩
   · rw [setConn_conn]; split <;> simp_all
   · rw [setConn_conn]; split <;> simp_all
 
 theorem ext_emit (s : Srv) (c : Nat) (k : Kind) (l : Nat) (h : AffOK s ⟨c, k, l⟩) : Ext s (s.emit c k l) :=
-  ⟨rfl, rfl, rfl, rfl, rfl, rfl, rfl, List.Sublist.refl _, fun _ => rfl, fun _ => rfl, rfl, [⟨c, k, l⟩], rfl, by simpa using h⟩
+  ⟨rfl, rfl, rfl, rfl, rfl, rfl, rfl, List.Sublist.refl _, fun _ => rfl, fun _ => rfl, rfl, rfl, [⟨c, k, l⟩], rfl, by simpa using h⟩
 
 theorem ext_enq (s : Srv) (l : Nat) (t : Task) : Ext s (s.enq l t) :=
-  ⟨rfl, rfl, rfl, rfl, rfl, rfl, rfl, List.Sublist.refl _, fun _ => rfl, fun _ => rfl, rfl, [], by simp, by simp⟩
+  ⟨rfl, rfl, rfl, rfl, rfl, rfl, rfl, List.Sublist.refl _, fun _ => rfl, fun _ => rfl, rfl, rfl, [], by simp, by simp⟩
 
 theorem ext_pop (s : Srv) (l : Nat) (t : Task) (rest : List Task) : Ext s (pop s l t rest) :=
-  ⟨rfl, rfl, rfl, rfl, rfl, rfl, rfl, List.Sublist.refl _, fun _ => rfl, fun _ => rfl, rfl, [], by simp, by simp⟩
+  ⟨rfl, rfl, rfl, rfl, rfl, rfl, rfl, List.Sublist.refl _, fun _ => rfl, fun _ => rfl, rfl, rfl, [], by simp, by simp⟩
 
 theorem ext_erase (s : Srv) (k : Nat) : Ext s { s with map := mapErase s.map k } :=
-  ⟨rfl, rfl, rfl, rfl, rfl, rfl, rfl, List.filter_sublist, fun _ => rfl, fun _ => rfl, rfl, [], by simp, by simp⟩
+  ⟨rfl, rfl, rfl, rfl, rfl, rfl, rfl, List.filter_sublist, fun _ => rfl, fun _ => rfl, rfl, rfl, [], by simp, by simp⟩
 
 theorem ext_reapOne (s : Srv) (l c : Nat) : Ext s (reapOne s l c) := by
   unfold reapOne; split
